@@ -2,7 +2,7 @@
 from datetime import timedelta
 
 from .. import hooks
-from ..gen import big_n, canon, exact, maybe_zone, mk_event, rand_grid, td_us
+from ..gen import id_mode, pick_id, big_n, canon, exact, maybe_zone, mk_event, rand_grid, td_us
 from ..model import norm, pairwise_disjoint, subset, subtract
 from . import _tx
 from ._tx import exc_viol, is_event_list, iv, snap, tmod, unmodified
@@ -107,11 +107,15 @@ def gen_case(rng, ctx):
     pos = base
     sticky = rng.random() < 0.5
     lab = rng.choice(_DATA)
+    idm = id_mode(rng) if rng.random() < 0.5 else "none"      # pieces of one stored event, events of several buckets: ids repeat
     for i in range(n):
         dur = rng.choice([0, 0, 1, 1, 2, 3, 7]) * unit
         if not (sticky and rng.random() < 0.6):
             lab = rng.choice(_DATA)
         specs.append(dict(ts=pos, dur=dur, data=lab, **({"zone": zone} if zone and rng.random() < 0.7 else {})))
+        eid = pick_id(rng, idm, i, 100)
+        if eid is not None:
+            specs[-1]["id"] = eid
         r = rng.random()
         if r < 0.15:
             gap = 0
